@@ -244,6 +244,10 @@ pub axiom fn ax_tq_mono(p: real, q: real, dof: real) requires 0real < p <= q < 1
 pub axiom fn ax_nq_odd(p: real) requires 0real < p < 1real ensures normal_quantile(1real - p) == -normal_quantile(p);
 pub axiom fn ax_tq_odd(p: real, dof: real) requires 0real < p < 1real, dof > 0real ensures t_quantile(1real - p, dof) == -t_quantile(p, dof);
 
+// error function and its inverse; the standard-normal quantile in closed form: Phi^-1(p) = sqrt(2) erf^-1(2p - 1)
+pub uninterp spec fn erf_spec(x: real) -> real;
+pub uninterp spec fn erf_inv_spec(x: real) -> real;
+pub broadcast axiom fn ax_nq_erf_inv(x: real) requires -1real < x < 1real ensures rmul(sqrt_spec(2real), #[trigger] erf_inv_spec(x)) == normal_quantile((x + 1real) / 2real);
 pub uninterp spec fn epsilon_spec() -> real;
 pub broadcast axiom fn ax_epsilon_pos() ensures #[trigger] epsilon_spec() > 0real;
 pub trait ToR: Sized { spec fn to_real(self) -> real; }
